@@ -1002,6 +1002,16 @@ def np_sum(interp, x):
     return array_sum(interp.cx, x)
 
 
+def np_clip(interp, a, lo, hi):
+    def one(x):
+        m = V.s_min(x, hi)  # np.clip(a, lo, hi) == maximum(minimum(a, hi), lo)
+        return V.s_max(m, lo)
+
+    if isinstance(a, Arr):
+        return map1(a, one, a.kind)
+    return one(a)
+
+
 def np_dtype(interp, name):
     return DType(dtype_kind(name), "M8[s]" if str(name).startswith(("M8", "datetime64")) else str(name))
 
@@ -1091,6 +1101,7 @@ NP_FUNCS = {
     "numpy.max": np_max,
     "numpy.sum": np_sum,
     "numpy.dtype": np_dtype,
+    "numpy.clip": np_clip,
     "numpy.sinh": transcendental("sinh"),
     "numpy.cosh": transcendental("cosh"),
     "numpy.tanh": transcendental("tanh"),
